@@ -28,7 +28,10 @@ RULE = ("each run draws 0-4 Split branches of the four kinds (Source, fill/compu
         "reference scheduler over model branches and compares the complete event histories; one "
         "run in four exercises the common-type API (fill/compute, fill/request, __call__) or Zip "
         "instead; non-trivial = at least two branches or a stop, and a non-empty history; distinct = "
-        "distinct abstracted event-kind sequences")
+        "distinct abstracted event-kind sequences"
+        " Since the seeded rounds also: post-elements that yield None, a branch element raising a"
+        " Lena exception that is not a stop (must propagate), nested mixed Splits as branches, the"
+        " same branch object listed twice, Zip with field names, the same Split run twice.")
 REAL = ["lena.core.Split", "lena.flow.Zip", "lena.core.Sequence", "lena.core.Source",
         "lena.core.FillComputeSeq", "lena.core.FillRequestSeq", "lena.core.FillSeq",
         "lena.core.FillInto/Run adapters", "lena.flow.Slice", "lena.flow.Filter", "copy.deepcopy"]
@@ -47,7 +50,8 @@ EXPECTED_PROBES = ["stop-in-last-slot-of-block", "two-branches-stop-in-same-bloc
                    "source-branch-after-first-block", "empty-flow-all-kinds", "common-type-fill-compute",
                    "common-type-fill-request", "common-type-call", "zip", "zip-with-fields", "nested-mixed-split-as-branch", "empty-split",
                    "fr-tuple-bufsize-none", "multi-block", "same-split-run-twice",
-                   "accumulator-inside-explicit-sequence", "same-branch-object-listed-twice"]
+                   "accumulator-inside-explicit-sequence", "same-branch-object-listed-twice",
+                   "no-branch-active-before-the-flow-ends"]
 
 
 class Spec(object):
@@ -380,8 +384,12 @@ def _filter(p, flow):
             yield v
 
 
-def ref_split_run(branches, flow, bufsize):
-    """The documented schedule of Split.run."""
+def ref_split_run(branches, flow, bufsize, read_on=True):
+    """The documented schedule of Split.run.
+
+    read_on: when no branch is active any more (all Sources were called, every other branch
+    stopped) the rest of the flow is still read (and ignored); the statement says nothing about
+    that, so the schedule that stops reading there is accepted as well."""
     if not branches:
         for v in flow:
             yield v
@@ -428,6 +436,8 @@ def ref_split_run(branches, flow, bufsize):
             else:
                 for r in br.run(block):
                     yield r
+        if not active and not read_on:
+            return
     for _, br in active:
         if br.kind == "source":
             for r in br.call():
@@ -480,24 +490,29 @@ def _exc_event(log, e):
 
 def run_mode(sc, res):
     log = res.log
-    mlog = Log()
-    # model first (it cannot fail)
-    msrc = SimSource(mlog, "src", sc.n, lambda i: Tok(i))
-    mbranches = [MBranch(b, mlog) for b in sc.branches]
-    if sc.dup:
-        mbranches[sc.dup[1]] = mbranches[sc.dup[0]]
-    mlog.ev("built")
     injected = any(getattr(b, "err_at", None) is not None for b in sc.branches)
-    try:
-        consume(ref_split_run(mbranches, msrc, sc.bufsize), mlog)
-        if sc.second_run is not None:
-            # the same Split object is run again on a new flow
-            mlog.ev("second-run")
-            consume(ref_split_run(mbranches, SimSource(mlog, "src2", sc.second_run,
-                                                       lambda i: Tok(100 + i)), sc.bufsize), mlog)
-    except lena.core.LenaValueError:
-        # the injected error of a branch: it ends the run of the reference scheduler too
-        mlog.ev("propagated", "LenaValueError")
+
+    def model(read_on):
+        mlog = Log()
+        # model first (it cannot fail)
+        msrc = SimSource(mlog, "src", sc.n, lambda i: Tok(i))
+        mbranches = [MBranch(b, mlog) for b in sc.branches]
+        if sc.dup:
+            mbranches[sc.dup[1]] = mbranches[sc.dup[0]]
+        mlog.ev("built")
+        try:
+            consume(ref_split_run(mbranches, msrc, sc.bufsize, read_on), mlog)
+            if sc.second_run is not None:
+                # the same Split object is run again on a new flow
+                mlog.ev("second-run")
+                consume(ref_split_run(mbranches, SimSource(mlog, "src2", sc.second_run,
+                                                           lambda i: Tok(100 + i)), sc.bufsize, read_on), mlog)
+        except lena.core.LenaValueError:
+            # the injected error of a branch: it ends the run of the reference scheduler too
+            mlog.ev("propagated", "LenaValueError")
+        return mlog
+    mlog = model(True)
+    mlog_stop_reading = model(False)
     # real
     src = SimSource(log, "src", sc.n, lambda i: Tok(i))
     try:
@@ -524,6 +539,10 @@ def run_mode(sc, res):
                 _mix(sc), type(e).__name__, exception_site(e)), repr(e)[:300])
             return
     _probes(sc, res, mlog)
+    if mlog_stop_reading.events != mlog.events:
+        res.probe("no-branch-active-before-the-flow-ends")
+        if log.events == mlog_stop_reading.events:
+            return
     compare(sc, res, log.events, mlog.events, "Split.run")
 
 
